@@ -7,7 +7,9 @@ import subprocess
 
 ROOT = os.path.dirname(os.path.dirname(os.path.abspath(__file__)))
 PROBES = os.path.join(ROOT, "out", "probes")
-TARGET = os.path.join(ROOT, "target")
+TARGET = os.environ.get("VERIF_TARGET_DIR") or os.path.join(ROOT, "target")
+if os.environ.get("VERIF_TARGET_DIR"):
+    PROBES = os.path.join(os.environ["VERIF_TARGET_DIR"], "probes-src")
 
 
 def env_base(extra=None):
